@@ -115,6 +115,9 @@ def render_item(it, rng):
         return ('"\xe9%d"' % it[1]) if it[1] >= 5000 else '%dpx' % it[1]
     if it[0] == 'url':
         return render_url(it[1], rng)
+    if it[1] % 4 == 0 and len(it[2]) == 1:
+        # a var() reference with a fallback: its url() is a url() of the sheet like any other
+        return 'var(v%d, %s)' % (it[1], render_item(it[2][0], rng))
     sep = rng.choice([', ', ' '])
     return 'f%d(%s)' % (it[1], sep.join(render_item(a, rng) for a in it[2]))
 
@@ -213,6 +216,9 @@ def proj_values(values):
     for v in values:
         if isinstance(v, cssutils.css.URIValue):
             out.append(('url', v.uri))
+        elif isinstance(v, cssutils.css.CSSVariable):
+            n = int(re.sub(r'\D', '', v.name) or 0)
+            out.append(('fn', n, proj_values([i.value for i in v.seq if isinstance(i.value, cssutils.css.Value)])))
         elif isinstance(v, cssutils.css.CSSFunction) and type(v) is cssutils.css.CSSFunction:
             name = v.seq[0].value
             n = int(re.sub(r'\D', '', name) or 0)
@@ -998,6 +1004,58 @@ KNOWN_PRED = {
 }
 
 
+def combine_namespace_part(ctx, n):
+    """csscombine (normal and minified) over sheets whose namespaces are used at the top level, only inside @media and
+    only inside nested @media: the output, parsed again, holds every style rule of the combined sheet with the same
+    (namespace URI, name) pairs and declarations.  Search only."""
+    import cssutils
+    import cssutils.script
+    import cssutils.util
+    from harness import impl
+    rng = ctx.rng
+    SVG = 'http://www.w3.org/2000/svg'
+
+    def walk(rules, med):
+        for r in rules:
+            if r.type == r.STYLE_RULE:
+                yield (med, tuple(tuple(i.value for i in sel.seq if isinstance(i.value, tuple)) for sel in r.selectorList), r.style.cssText)
+            elif r.type == r.MEDIA_RULE:
+                yield from walk(r.cssRules, med + (r.media.mediaText,))
+    for _ in range(n):
+        impl.reset()
+        body = rng.choice(['svg|a{left:0}', '@media print{svg|a{left:0}}', '@media print{@media tv{svg|a{left:0}}}',
+                           '@media print{b{top:0} c:not(svg|a){left:0}}'])
+        extra = rng.choice(['', 'k{background:url(i/k.png)}', '@namespace x "http://x";'])
+        root = 'http://h/css/main.css'
+        texts = {root: '@import "q/p.css"%s; t{background:url(t.png)}' % rng.choice(['', ' screen']),
+                 'http://h/css/q/p.css': '@namespace svg "%s"; %s %s' % (SVG, extra if extra.startswith('@') else '', body + ' ' + ('' if extra.startswith('@') else extra))}
+        if rng.random() < 0.5:
+            # the namespace is declared and used in the root sheet itself
+            texts = {root: '@namespace svg "%s"; %s t{background:url(t.png)}' % (SVG, body)}
+        outs = {}
+        case = {'files': texts, 'family': 'combine-namespace'}
+        ctx.case(('combine-ns', json.dumps(texts, sort_keys=True)))
+        try:
+            for minify in (False, True):
+                cssutils.util._defaultFetcher = lambda url: (None, texts[url]) if url in texts else None
+                out = cssutils.script.csscombine(cssText=texts[root], href=root, minify=minify)
+                install_stub()
+                outs[minify] = sorted(walk(cssutils.parseString(out, href=root).cssRules, ()), key=repr)
+        except Exception as e:  # noqa
+            install_stub()
+            ctx.violation('combine-raises', case, '%s: %s' % (type(e).__name__, e), KNOWN_PRED)
+            continue
+        finally:
+            if type(cssutils.ser) is not cssutils.serialize.CSSSerializer:
+                cssutils.ser = cssutils.serialize.CSSSerializer()
+        names = {p_[1] for r in outs[False] for sel in r[1] for p_ in sel}
+        uses_svg = [r for r in outs[False] if any(p_[0] == SVG for sel in r[1] for p_ in sel)]
+        kept_import = '@import' in texts[root] and not uses_svg and 'a' not in names
+        if outs[True] != outs[False] or (not kept_import and not uses_svg):
+            ctx.violation('combine-differs', dict(case, normal=repr(outs[False])[:600], minified=repr(outs[True])[:600]),
+                          'style rules read back from the normal and the minified output differ, or the namespaced rule is missing', KNOWN_PRED)
+
+
 def run(ctx):
     quick = ctx.tier == 'quick'
     ctx.cov['rule'] = ('(href, url) pairs assembled from scheme/authority/segment/query/fragment parts; sheets with url() in imports, style, '
@@ -1008,6 +1066,7 @@ def run(ctx):
     geturls_part(ctx, 700 if quick else 9000)
     mc = flatten_part(ctx, 600 if quick else 9000, 250 if quick else 3500)
     run_flatten_model(ctx, mc, 'flatten')
+    combine_namespace_part(ctx, 40 if quick else 600)
     mc2 = cycles_part(ctx, 100 if quick else 1200)
     run_flatten_model(ctx, mc2, 'flatten_cyclic')
 
